@@ -192,6 +192,8 @@ pub fn mpqs(n: Uint, k: u32, prefs: &Preferences, tpool: Option<&rayon::ThreadPo
     }
     let polys_done = s.polys_done.load(Ordering::SeqCst) as u64;
     let mut rels = rels.into_inner().unwrap();
+    #[cfg(yamaquasi_verif)]
+    crate::relations::verif_hooks::observe_final(&rels);
     if prefs.verbose(Verbosity::Info) {
         rels.log_progress(format!(
             "Sieved {}M {polys_done} polys",
